@@ -36,6 +36,12 @@ m = {
     "engines": [
         {"name": "E1-input-space", "path": "harness/chk_load.c", "serves_properties": [p for p in ALL if CHECKS.get(p, {}).get("engine") == "E1-input-space"],
          "kind_free_text": "exhaustive enumeration of byte strings and pushdown DFS over a head alphabet, real library in lock-step with a reference decoder"},
+        {"name": "E1-tree-space", "path": "harness/chk_serial.c, harness/vf_trees.c", "serves_properties": [p for p in ALL if CHECKS.get(p, {}).get("engine") == "E1-tree-space"],
+         "kind_free_text": "bounded exhaustive enumeration of item trees (decoder-derived + constructed grammar) with reference encoder, byte-image snapshots, guard-page buffers"},
+        {"name": "E3-fault-schedule", "path": "harness/chk_fault.c", "serves_properties": [p for p in ALL if CHECKS.get(p, {}).get("engine") == "E3-fault-schedule"],
+         "kind_free_text": "deviation-bounded enumeration of allocator answers (single refusal, fail-stop, pairs) per scenario"},
+        {"name": "E4-fragment-state", "path": "harness/chk_frag.c", "serves_properties": [p for p in ALL if CHECKS.get(p, {}).get("engine") == "E4-fragment-state"],
+         "kind_free_text": "explicit-state search of the streaming client's state graph with the real decoder as transition function"},
         {"name": "E1-value-domain", "path": "harness/chk_stream.c, harness/chk_encode.c", "serves_properties": [p for p in ALL if CHECKS.get(p, {}).get("engine") == "E1-value-domain"],
          "kind_free_text": "complete enumeration of finite value domains (initial bytes, arguments, buffer lengths, float patterns) against reference tokeniser/encoder"},
     ],
